@@ -131,6 +131,41 @@ VOp(ev) ==
      ELSE PBad("C13: " \o ev.fn \o " (operands via " \o ev.how \o ")",
                ToJson([enc |-> ShowElem(g, e), neg |-> ShowElem(g, GNeg(g, e))]))
 
+(* ---- C12: the extended-coordinate formulas ----------------------------- *)
+(* toy table: coordinates are small JSON integers                              *)
+ExtOf(t) == <<NLit(t[1]), NLit(t[2]), NLit(t[3]), NLit(t[4])>>
+Formula(c, fn, r1, r2) == IF fn = "add3" THEN AddExt3(c, r1, r2)
+                          ELSE IF fn = "add4" THEN AddExt4(c, r1, r2)
+                          ELSE DblExt(c, r1)
+(* the expected AFFINE result and whether the formula is obliged to give it     *)
+EdExpect(c, fn, A1, A2) == IF fn = "dbl" THEN AffAdd(c, A1, A1) ELSE AffAdd(c, A1, A2)
+EdObliged(c, fn, A1, A2) == fn # "add4" \/ ~Order124(c, AffAdd(c, A1, AffNeg(c, A2)))
+EdCaseOK(c, fn, r1, r2, out) ==
+  LET A1 == ToAffine(c, r1)
+      A2 == ToAffine(c, r2)
+  IN EdObliged(c, fn, A1, A2) => (ValidExt(c, out) /\ ToAffine(c, out) = EdExpect(c, fn, A1, A2))
+VEdTab(ev) ==
+  LET c  == GroupTable[ev.grp]
+      r1 == ExtOf(ev.r1)
+      n  == Len(ev.r2s)
+      bad == {j \in 1..n : ~EdCaseOK(c, ev.fn, r1, ExtOf(ev.r2s[j]), ExtOf(ev.outs[j]))}
+      pre == {j \in 1..n : ~(ValidExt(c, ExtOf(ev.r2s[j])) /\ OnCurve(c, ToAffine(c, ExtOf(ev.r2s[j]))))}
+  IN IF ~(ValidExt(c, r1) /\ OnCurve(c, ToAffine(c, r1))) \/ pre # {} THEN PBad("harness: operand is not a curve point", "")
+     ELSE IF Len(ev.outs) # n THEN PBad("harness: table size", "")
+     ELSE IF bad = {} THEN PGood
+     ELSE LET j == FirstBad(bad)
+          IN PBad("C12: " \o ev.fn \o " does not compute the Edwards sum for operand pair " \o ToString(j),
+                  ToJson([r1 |-> ev.r1, r2 |-> ev.r2s[j], got |-> ev.outs[j]]))
+HExt(t) == <<PHNum(t[1]), PHNum(t[2]), PHNum(t[3]), PHNum(t[4])>>
+VEdOp(ev) ==
+  LET c  == GroupTable[ev.grp]
+      r1 == HExt(ev.r1)
+      r2 == HExt(ev.r2)
+  IN IF ~(ValidExt(c, r1) /\ OnCurve(c, ToAffine(c, r1)) /\ ValidExt(c, r2) /\ OnCurve(c, ToAffine(c, r2)))
+     THEN PBad("harness: operand is not a curve point", "")
+     ELSE IF EdCaseOK(c, ev.fn, r1, r2, HExt(ev.out)) THEN PGood
+     ELSE PBad("C12: " \o ev.fn \o " does not compute the Edwards sum (" \o ev.note \o ")", "")
+
 PureVerdict(ev) ==
   CASE ev.op = "g_dec_table" -> VDecTable(ev)
     [] ev.op = "g_dec"       -> VDec(ev)
@@ -139,5 +174,7 @@ PureVerdict(ev) ==
     [] ev.op = "g_eq_row"    -> VEqRow(ev)
     [] ev.op = "g_neg_row"   -> VNegRow(ev)
     [] ev.op = "g_op"        -> VOp(ev)
+    [] ev.op = "ed_tab"      -> VEdTab(ev)
+    [] ev.op = "ed_op"       -> VEdOp(ev)
     [] OTHER                 -> PBad("harness: unknown event " \o ev.op, "")
 =============================================================================
